@@ -49,7 +49,7 @@ theorem codecs_agree (t : Ty) (v : TVal) (ht : Typed t v) (hs : Small v) (f : Na
 def wrapDyn (inner : Bytes) : Bytes := leN 4 1 ++ [109] ++ inner
 
 theorem parseSig_m : parseSig [109] = .ok (.basic 109) := by
-  have := C09.print_parse (.basic 109) (by simp [C09.WF, basicLetters])
+  have := C09.print_parse (.basic 109) (by simp [C09.WF, basicLetters]) (by simp [C09.nest])
   simpa [print] using this
 
 /-- **The reader returns a dynamic value nested directly in a dynamic value unchanged as well**
@@ -74,6 +74,6 @@ def exVal : TVal := .map [(.str [107], .tuple [.num 255, .list [.num 65535, .num
 
 example : Typed exTy exVal ∧ Small exVal := by
   simp [exTy, exVal, Typed, TypedPairs, TypedFields, TypedList, width, C09.WF, Plain, print, maxStringSize,
-    basicLetters, zeroSize, zeroSizeList, Small, SmallPairs, SmallList, listValueMaxSize]
+    basicLetters, zeroSize, zeroSizeList, Small, SmallPairs, SmallList, listValueMaxSize, SigFits, C09.nest, maxDepth]
 
 end QiVerif.C03
